@@ -18,7 +18,7 @@ def _discover():
 
     for m in pkgutil.iter_modules(harness.__path__):
         name = m.name
-        if len(name) >= 3 and name[0] == "c" and name[1:3].isdigit():
+        if len(name) == 3 and name[0] == "c" and name[1:3].isdigit():
             CHECKS["C" + name[1:3]] = "harness." + name
 
 
